@@ -1,5 +1,6 @@
 CONSTANTS P = 103  A = 0  B = 5  Gx = 2  Gy = 42  N = 97  Mode = "recover"  RMax = 99
-CONSTANT ESet <- EFew
+CONSTANT ESet <- EOne
+CONSTANT SSet <- SFew
 CONSTANT DSet <- DFew
 SPECIFICATION Spec
 INVARIANT Holds
